@@ -552,6 +552,14 @@ def box(v: V, kind: Kind):
             if missing:
                 raise Unsupported(f"box: record {v.cls} lacks field(s) {missing} of {kind!r}")
             return kind.sort().constructor(0)(*[box(v.fields[n], fk) for n, fk in kind.fields.items()])
+        items = getattr(v, "items", None)
+        if isinstance(items, dict):
+            # a dict literal with constant keys seen as a record: every field of the kind must be a key; keys the kind
+            # does not name are not observed (abstraction, stated in the contract that declares the kind)
+            missing = [n for n in kind.fields if n not in items]
+            if missing:
+                raise Unsupported(f"box: dict literal lacks key(s) {missing} of {kind!r}")
+            return kind.sort().constructor(0)(*[box(items[n], fk) for n, fk in kind.fields.items()])
         raise Unsupported(f"box: {v.kind!r} as {kind!r}")
     if isinstance(kind, KUnion):
         s = kind.sort()
